@@ -206,7 +206,13 @@ func (c *Context) Neg(d, x *Decimal) (Condition, error) {
 	if c.shouldSetAsNaN(x, nil) {
 		return c.setAsNaN(d, x, nil)
 	}
+	xNeg := x.Negative
 	d.Neg(x)
+	if c.Rounding == RoundFloor && d.IsZero() {
+		// Neg is 0 - x: an exact zero difference of operands with unlike
+		// signs is -0 when rounding toward negative infinity.
+		d.Negative = !xNeg
+	}
 	res := c.round(d, d)
 	return c.goError(res)
 }
